@@ -47,6 +47,15 @@ class EvalModel:
             self.ctx_writers()
             v = prog.view(self.exec, keep=lambda g: g.id not in helpers or g.id in self._cw, tag='eval')
             self.bodies = [v]
+            # whatever was not opened into the view (closures handed to iterator adaptors, helpers beyond the
+            # inlining bound) is still an evaluator body of its own
+            opened = set(v.j.get('inlined') or []) if getattr(v, 'is_view', False) else set()
+            for bid in sorted(self.reach):
+                b = prog.by_id[bid]
+                if b.id == self.exec.id or b.name in opened:
+                    continue
+                if self.child_sites(b) or self.handler_sites(b) or self.ctx_writes(b):
+                    self.bodies.append(b)
             return
         for bid in sorted(self.reach):
             b = prog.by_id[bid]
